@@ -20,7 +20,7 @@ NOSITE = -1
 BOUNDS = {
     'quick': 'event tables of k<=3 rows over n<=3 sites (site ids symbolic in [-1,n)); jump tables k<=3, n=3 on 2 pool '
              'lattices (cubic, triclinic), dimensions 1..3; occupancy histories (T,A) in {(3,1),(2,2)} over 3 sites',
-    'thorough': 'k<=4, n<=4; jump tables k<=4 on 4 pool lattices; occupancy (T,A) in {(4,1),(3,2),(2,3)}',
+    'thorough': 'event tables k<=4, n<=4; jump tables k<=3 on 6 pool lattices (k=4 on the 3-site set), 3- and 4-site sets; occupancy (T,A) in {(4,1),(3,2),(2,3),(3,1)}',
 }
 OUTSIDE = ['e_act values on graph edges, rates and activation energies (need the attempt frequency -> scipy periodogram)',
            'more rows/sites than the bound']
@@ -327,7 +327,7 @@ def jobs(tier, seed):
     else:
         tm = [(k, n) for k in (1, 2, 3, 4) for n in (1, 2, 3, 4)]
         jb = [(k, lat, 'three') for k in (1, 2, 3) for lat in ('cubic5', 'tric', 'hex558', 'cubic5_rotz')] + \
-             [(4, 'mono567b110', 'four'), (3, 'rhomb60', 'face'), (4, 'tric', 'three')]
+             [(3, 'mono567b110', 'four'), (3, 'rhomb60', 'face'), (4, 'tric', 'three')]
         oc = [(4, 1, 'three'), (3, 2, 'three'), (2, 3, 'three'), (3, 1, 'four'), (1, 1, 'two')]
     for k, n in tm:
         js.append(dict(name=f'tmatrix_k{k}_n{n}', fn='tmatrix_job', params=dict(k=k, n=n)))
